@@ -48,6 +48,8 @@ def isas_special(did, k):
         [variant("Z\u00fcrich2", "tuple", [field("u8")]), variant("Caf\u00e92"), variant("M\u00fcnchen10", "named", [field("u8", "x")])],
         [variant("Solo", "tuple", [])],
         [variant("Solo")],
+        [variant("Flag", "tuple", [field("uopt")]), variant("Pair", "tuple", [field("uopt"), field("u8")]), variant("Plain"), variant("Named", "named", [field("uopt", "o")]),
+         variant("Off", "tuple", [field("uopt")], dis=True)],
         [variant("Idle", "named", []), variant("Queued", "tuple", [field("u16")]), variant("Failed", "named", [field("i32", "code")]), variant("Gone", "named", [], dis=True),
          variant("Done")],
         # explicit discriminants on data-carrying variants (legal with a primitive repr)
@@ -84,12 +86,20 @@ def _vals(E, v, which):
             base = "Some(%du8)" % (10 * which + k)
         elif ty == "bool":
             base = "true" if (which + k) % 2 else "false"
+        elif ty == "uopt":
+            base = "user_scope::Option(%du8)" % (10 * which + k)
         out.append(base)
     return out
 
 
 def isas_module(E, facts):
-    src = SG.HEADER + D.print_enum(E, ["EnumIs", "EnumTryAs"]) + "\n"
+    decl = D.print_enum(E, ["EnumIs", "EnumTryAs"])
+    if any(f["ty"] == "uopt" for v in E["variants"] for f in v["fields"]):
+        # the enum's module defines its own type called `Option` (a command-line option, say) and a field mentions it: whatever the
+        # derive brings into scope must not capture the user's tokens
+        decl = ("pub mod user_scope {\n    #[derive(Debug, Clone, PartialEq, Default)]\n    pub struct Option(pub u8);\n%s\n}\npub use user_scope::%s;"
+                % ("\n".join("    " + l for l in decl.splitlines()), E["name"]))
+    src = SG.HEADER + decl + "\n"
     did = E["id"]
     en = [(i, v) for i, v in enumerate(E["variants"]) if not v["dis"]]
     dis = [(i, v) for i, v in enumerate(E["variants"]) if v["dis"]]
@@ -211,7 +221,7 @@ MSG_SPECIALS = 11
 
 
 def msg_module(E):
-    src = SG.HEADER + D.print_enum(E, ["EnumMessage"]) + "\n"
+    src = SG.HEADER + D.in_user_scope(D.print_enum(E, ["EnumMessage"]), E) + "\n"
     if E["id"] % 2:
         src += D.decoy_impl(E, "EnumMessage")
     did = E["id"]
@@ -302,7 +312,7 @@ def prop_special(did, k):
 
 
 def prop_module(E, rng):
-    src = SG.HEADER + D.print_enum(E, ["EnumProperty"]) + "\n"
+    src = SG.HEADER + D.in_user_scope(D.print_enum(E, ["EnumProperty"]), E) + "\n"
     if E["id"] % 2:
         src += D.decoy_impl(E, "EnumProperty")
     did = E["id"]
